@@ -326,6 +326,9 @@ func (v *violation) key() string { return v.Class + "@" + v.Site }
 
 func workerEnv(dir string, w int, extra ...string) []string {
 	env := os.Environ()
+	if curEngine == "B" {
+		env = append(env, "GODEBUG=panicnil=1") // C19 task kind 4: panic(nil) as under golib's go 1.18
+	}
 	env = append(env, "GORACE=log_path="+filepath.Join(dir, fmt.Sprintf("race%d", w))+" halt_on_error=0 atexit_sleep_ms=0 exitcode=0")
 	env = append(env, extra...)
 	return env
